@@ -37,6 +37,7 @@ type Oblig struct {
 	clauseIdx int
 	noReplay  bool
 	dropQuantified bool // probe fallback: leave out quantified facts
+	RawQuery string // complete query text (bit-vector lemma back end); replaces the generated one
 	vc      *FnVC
 }
 
@@ -101,6 +102,7 @@ type FnVC struct {
 	locs          map[ssa.Value]Loc
 	closures      map[ssa.Value]*ssa.MakeClosure
 	bitUses       []bitUse
+	callLocVars   map[string]Loc // callee parameter names bound to interior pointers at the current call
 	retReach      []string
 	globalErrs    []string
 	newErrs       []string
@@ -754,8 +756,15 @@ func (vc *FnVC) loadObject(ref string, t types.Type, heap func(comp, sort string
 		return fmt.Sprintf("(%s %s)", vc.ctorName(t), strings.Join(parts, " "))
 	case *types.Array:
 		if isObjectType(u.Elem()) {
-			vc.errorf("array of objects loaded by value: %s", t)
-			return vc.freshConst("arrobj", vc.sortOf(t))
+			if u.Len() > 8 {
+				vc.errorf("array of objects loaded by value: %s", t)
+				return vc.freshConst("arrobj", vc.sortOf(t))
+			}
+			av := vc.freshConst("arrobj", vc.sortOf(t))
+			for i := int64(0); i < u.Len(); i++ {
+				av = fmt.Sprintf("(store %s %d %s)", av, i, vc.loadObject(vc.elemRef(u.Elem(), ref, fmt.Sprint(i)), u.Elem(), heap))
+			}
+			return av
 		}
 		c, s := vc.elemComp(u.Elem())
 		return fmt.Sprintf("(select %s %s)", heap(c, s), ref)
@@ -786,7 +795,13 @@ func (vc *FnVC) storeObject(ref string, t types.Type, val string) {
 		return
 	case *types.Array:
 		if isObjectType(u.Elem()) {
-			vc.errorf("array of objects stored by value: %s", t)
+			if u.Len() > 8 {
+				vc.errorf("array of objects stored by value: %s", t)
+				return
+			}
+			for i := int64(0); i < u.Len(); i++ {
+				vc.storeObject(vc.elemRef(u.Elem(), ref, fmt.Sprint(i)), u.Elem(), fmt.Sprintf("(select %s %d)", val, i))
+			}
 			return
 		}
 		c, s := vc.elemComp(u.Elem())
